@@ -130,6 +130,33 @@ fn random_order(src: &mut Src, obs: &mut Obs) -> Res {
     check(&q, &text, &doc, obs)
 }
 
+/// documents whose member names need escapes (apostrophes, backslashes, control characters) among plain
+/// ones, under wildcards, descendants, slices and name selectors of the plain names: how a name must be
+/// spelled in a path has no bearing on where its member stands in the document.  (Name selectors that
+/// would need an escape are replaced by wildcards, and there are no filters: the region of finding K3.)
+fn random_hostile_names(src: &mut Src, obs: &mut Obs) -> Res {
+    let mut cfg = cfg_order();
+    cfg.special_keys = true;
+    cfg.filter_depth = 0;
+    let doc = gen_doc(src, &cfg).sorted();
+    let mut q = gen_query(src, &doc, &cfg);
+    for sg in q.segs.iter_mut() {
+        for sel in sg.sels.iter_mut() {
+            if let Sel::Name(n) = sel {
+                if n.has_escape() || encode_min(&n.val, &Quote::S) != n.val || encode_min(&n.val, &Quote::D) != n.val {
+                    *sel = Sel::Wild;
+                }
+            }
+        }
+        if sg.sels.iter().all(|x| matches!(x, Sel::Wild)) {
+            sg.sels.truncate(1);
+        }
+    }
+    obs.label("hostile-names");
+    let text = render_plain(&q);
+    check(&q, &text, &doc, obs)
+}
+
 fn src_blank(src: &mut Src) -> bool {
     src.chance(1, 3)
 }
@@ -248,6 +275,7 @@ pub fn prop() -> Prop {
                 name: "random-order",
                 kind: Kind::Random { f: random_order, quick: 200_000, thorough: 4_000_000, len: 400 },
             },
+            Sub { name: "random-hostile-names", kind: Kind::Random { f: random_hostile_names, quick: 80_000, thorough: 1_600_000, len: 400 } },
             Sub { name: "random-member-order-of-the-view", kind: Kind::Random { f: random_member_order_of_the_view, quick: 100_000, thorough: 2_000_000, len: 500 } },
             Sub {
                 name: "random-k1-free",
